@@ -131,3 +131,30 @@ func H_C10_caseInvariant(n int) {
 	vReach("both-accepted", e1 == nil && e2 == nil && flip != 0)
 	vAssert("case-invariant", (e1 == nil) == (e2 == nil) && v1 == v2)
 }
+
+// "unless the limit forbids it": the documented numerals are accepted up to and including the configured input
+// length, with the limit symbolic around the length of the text (0 disables it)
+//
+//verif:harness C10 quick n=1..5
+func H_C10_atTheLimit(n int) {
+	in := vBytes("in", n)
+	max := vInt("max")
+	vAssume(max >= 0 && max <= 8)
+	save := MaxInputLength
+	MaxInputLength = max
+	v, err := DefaultParser(in, 0)
+	verr := Valid(in, 0)
+	MaxInputLength = save
+	ok, want := refRoman(in)
+	within := max == 0 || n <= max
+	vReach("accepted-at-exactly-the-limit", err == nil && max == n)
+	vReach("too-long", !within)
+	vAssert("accept-iff-grammar-and-within-limit", (err == nil) == (ok && within))
+	vAssert("valid-agrees", (verr == nil) == (err == nil))
+	if err == nil {
+		vAssert("value", uint64(v) == want)
+	}
+	if !within {
+		vAssert("too-long-sentinel", err != nil && errorsIs(err, ErrInputTooLong))
+	}
+}
